@@ -17,7 +17,7 @@ RULE = ('Evaluation = one (array, scaling mode, user kwargs) triple pushed throu
         'distinct finite values; distinct = hash of (array, mode, kwargs).')
 ASSUMPTIONS = ['min_range/value span of at least 1e-6 (stated domain)', 'IEEE double arithmetic']
 REQUIRED = ['mode:shift-and-scale', 'mode:minmax-scale', 'mode:step-scale', 'nans_interspersed', 'value_on_step_edge',
-            'min_range_binding', 'all_nan', 'single_value', 'constant', 'in_situ'] + ['steps%d' % k for k in range(5)]
+            'min_range_binding', 'all_nan', 'single_value', 'constant', 'in_situ', 'max_exactly_0', 'window_edge_exactly_0'] + ['steps%d' % k for k in range(5)]
 SIZES = {'quick': 24000, 'thorough': 600000}
 EPS = np.finfo(float).eps
 
@@ -51,6 +51,11 @@ def gen_array(rng):
         x = rng.normal(top / 2, top / 20, n)
         x[0] = top                                    # skewed
     x = np.clip(np.asarray(x, dtype=float), -1e5, 1e5)
+    z = rng.uniform()
+    if z < 0.08:
+        x = x - x.max()               # maximum exactly 0 (e.g. time deltas with the newest hit at dt = 0)
+    elif z < 0.14:
+        x = x - x.min()               # minimum exactly 0
     u = rng.uniform()
     if u < 0.3 and n > 1:
         x[rng.uniform(size=n) < 0.3] = np.nan
@@ -69,6 +74,10 @@ def gen_mode(rng, x):
     elif m == 'minmax-scale':
         rngx = float(fin.max() - fin.min()) if len(fin) else 0.0
         mr = float(rng.choice([0.0, 1e-6, 0.1, 10.0, 1000.0, 5000.0, rngx * 2 + 1e-3]))
+        if len(fin) and rng.uniform() < 0.15 and fin.max() + fin.min() < 0 and -(fin.max() + fin.min()) > rngx:
+            mr = float(-(fin.max() + fin.min()))          # widened window [2*mid, 0]: upper edge exactly 0
+        elif len(fin) and rng.uniform() < 0.1 and fin.max() + fin.min() > rngx:
+            mr = float(fin.max() + fin.min())             # widened window [0, 2*mid]: lower edge exactly 0
         if max(rngx, mr) < 1e-6:
             mr = 1e-6 if rng.uniform() < 0.5 else 1000.0
         kw = {'min_range': mr} if (mr > 0 or rng.uniform() < 0.5) else {}
@@ -79,6 +88,9 @@ def gen_mode(rng, x):
         else:
             steps = sorted(float(v) for v in rng.uniform(-1e4, 1e5, k))
         scales = [float(10 ** rng.uniform(-1, 4)) for _ in range(k + 1)]
+        if rng.uniform() < 0.3:       # recurring step lists whose inner scales recur too: only the outer scales vary
+            steps = [3000.0, 8000.0, 14000.0][:k]
+            scales = [scales[0]] + [500.0, 250.0][:max(k - 1, 0)] + ([scales[-1]] if k else [])
         kw = {'steps': steps, 'scales': scales}
         if k and len(fin) and rng.uniform() < 0.5:       # put values exactly on the edges
             x = x.copy()
@@ -103,6 +115,8 @@ def judge(x, m, kw, viol, tags):
         if not (y.shape == x.shape and np.isnan(y).all()):
             oracles.V(viol, 'C19', 'all-NaN array does not pass through', **wit)
         return False
+    if fin.max() == 0:
+        tags.add('max_exactly_0')
     if len(fin) == 1:
         tags.add('single_value')
     elif fin.min() == fin.max():
@@ -164,6 +178,8 @@ def judge(x, m, kw, viol, tags):
         span = float(fin.max() - fin.min())
         if mr > span:
             tags.add('min_range_binding')
+            if float(do_kw['max_val']) == 0 or float(do_kw['min_val']) == 0:
+                tags.add('window_edge_exactly_0')
         if yf.min() < -1e-12 or yf.max() > 1 + 1e-12:
             oracles.V(viol, 'C19', 'minmax output outside [0,1]', ymin=float(yf.min()), ymax=float(yf.max()), **wit)
         exp = span / max(span, mr)
